@@ -348,6 +348,9 @@ func serializeTo(nodes []Token, writer io.StringWriter) {
 		} else if ident, isIdent := node.(Ident); isIdent && previousType == "!" && beforePreviousType == "<" && strings.HasPrefix(ident.Value, "--") {
 			// "<!" followed by "--x" would be read back as the CDO token
 			writer.WriteString("/**/")
+		} else if fn, isFn := node.(FunctionBlock); previousType == "!" && beforePreviousType == "<" && (serializationType == "-->" || isFn && strings.HasPrefix(fn.Name, "--")) {
+			// same with "-->" or "--f("
+			writer.WriteString("/**/")
 		} else if previousIsU && serializationType == "+" {
 			// "u+<hex or ?>" would be read back as an unicode-range token
 			writer.WriteString("/**/")
